@@ -80,7 +80,8 @@ def gen_features(rng, n, nu, m, metric=None, lattice=False, tie_free=False):
     pos = metric in POS_METRICS
     for _ in range(50):
         if lattice:
-            X = [[float(rng.randint(1 if pos else -2, 4)) for _ in range(dim)] for _ in range(N)]
+            # decorated ratio metrics accept exact zeros (the EPSILON shift), undecorated sqrt-based ones too
+            X = [[float(rng.randint(0 if pos else -2, 4)) for _ in range(dim)] for _ in range(N)]
         else:
             X = [[(rng.random() * 9 + 0.5) if pos else (rng.random() * 20 - 10) for _ in range(dim)] for _ in range(N)]
         if m and not lattice:
@@ -141,6 +142,15 @@ def gen_instance(rng, nmax=10, nu=0, m=0, tie_free=False, kinds=("feat", "mat", 
         kind = "feat"
     n = rng.randint(2, nmax)
     labels = gen_labels(rng, n)
+    if kind == "mat" and not tie_free and rng.random() < 0.2 and n >= 3:
+        # bootstrap resample of a smaller base set: some points are exact copies of others (distance 0, equal rows)
+        N = n + nu + m
+        nb = max(2, N - rng.randint(1, 2))
+        base = gen_matrix(rng, nb, [float(v) for v in rng.sample(range(1, 9), rng.choice([2, 3]))] if rng.random() < 0.6 else None)
+        mp = list(range(nb)) + [rng.randrange(nb) for _ in range(N - nb)]
+        rng.shuffle(mp)
+        D = [[base[mp[a]][mp[b]] for b in range(N)] for a in range(N)]
+        return Instance("boot", None, labels, D, nu, m, None)
     if kind == "mat":
         if tie_free:
             alphabet = None
@@ -173,15 +183,25 @@ def gen_instance(rng, nmax=10, nu=0, m=0, tie_free=False, kinds=("feat", "mat", 
 # running the implementation
 
 def embed_matrix(D):
-    """Embed the N x N matrix D into a larger matrix through a random injective row map idx (point a -> row idx[a]),
+    """Embed the N x N matrix D into a larger matrix through a random row map idx (point a -> row idx[a]),
     all other entries being garbage, so that a node's position and its row index differ (the code must go through
-    nodes[.].idx on both axes). Deterministic in D."""
+    nodes[.].idx on both axes). Points that are copies of one another (identical rows/columns, distance 0 - a
+    bootstrap resample) may share one row. Deterministic in D."""
     N = len(D)
     r = random.Random(hash(tuple(map(tuple, D))) & 0xFFFFFFFF)
+    twins = {}
+    for a in range(N):
+        for b in range(a):
+            if D[a][b] == 0 and D[b][a] == 0 and D[a][a] == D[b][b] == 0 and all(D[a][c] == D[b][c] and D[c][a] == D[c][b] for c in range(N)):
+                twins[a] = twins.get(b, b)
+                break
     M = N + r.randint(0, 3)
     idx = r.sample(range(M), N)
     if r.random() < 0.25:
         idx = list(range(N)); M = N          # the identity layout stays in the mix
+    elif twins and r.random() < 0.7:
+        for a, b in twins.items():
+            idx[a] = idx[b]                   # a repeated index (the same underlying sample drawn twice)
     big = [[float(r.randint(0, 9)) + 0.5 for _ in range(M)] for _ in range(M)]
     for a in range(N):
         for b in range(N):
@@ -235,11 +255,20 @@ def impl_fit(inst, cls=None, reuse=False):
     from opfython.models.supervised import SupervisedOPF
     opf, X, I = make_model(inst, cls or SupervisedOPF)
     if reuse:
-        key = (cls or SupervisedOPF, inst.metric, inst.X is None)
+        # ONE object per model class, re-configured through its public attributes between trainings: metric,
+        # pre-computed flag and matrix change from one training to the next (a matrix of an earlier training may
+        # stay attached while the flag is off)
+        import opfython.math.distance as dmod
+        key = cls or SupervisedOPF
         if key in _REUSE:
             old = _REUSE[key]
             if inst.X is None:
+                old.pre_computed_distance = True
                 old.pre_distances = opf.pre_distances
+            else:
+                old.pre_computed_distance = False
+                old.distance = inst.metric
+                old.distance_fn = dmod.DISTANCES[inst.metric]
             opf = old
         _REUSE[key] = opf
     n = inst.n
@@ -247,8 +276,29 @@ def impl_fit(inst, cls=None, reuse=False):
     return opf, node_state(opf.subgraph)
 
 
+def gen_mixed_dtype_instance(rng, nmax=8):
+    """labeled rows in an int64 array (grid features), unlabeled rows in a float64 array with fractional parts:
+    the two arrays a caller passes to SemiSupervisedOPF.fit need not share a dtype."""
+    import opfython.math.distance as d
+    n, nu = rng.randint(2, nmax), rng.randint(1, 4)
+    dim = rng.randint(1, 3)
+    metric = rng.choice(["euclidean", "manhattan", "squared_euclidean", "chebyshev", "log_squared_euclidean"])
+    Xl = np.array([[rng.randint(-3, 4) for _ in range(dim)] for _ in range(n)], dtype=np.int64)
+    Xu = np.array([[rng.randint(-3, 4) + rng.choice([0.25, 0.5, 0.75]) for _ in range(dim)] for _ in range(nu)], dtype=float)
+    rows = [Xl[i] for i in range(n)] + [Xu[j] for j in range(nu)]
+    fn = d.DISTANCES[metric]
+    D = [[float(fn(rows[a], rows[b])) for b in range(n + nu)] for a in range(n + nu)]
+    inst = Instance("mixed_dtype", [list(map(float, r)) for r in rows], gen_labels(rng, n), D, nu, 0, metric)
+    inst.mixed = (Xl, Xu)
+    return inst
+
+
 def impl_semi_fit(inst):
     from opfython.models.semi_supervised import SemiSupervisedOPF
+    if getattr(inst, "mixed", None) is not None:
+        opf = SemiSupervisedOPF(distance=inst.metric)
+        opf.fit(inst.mixed[0], np.array(inst.labels), inst.mixed[1])
+        return opf, node_state(opf.subgraph)
     opf, X, I = make_model(inst, SemiSupervisedOPF)
     n, nu = inst.n, inst.nu
     if I is None:
